@@ -288,6 +288,7 @@ func TestSwarmPair(t *testing.T) {
 			time.Sleep(120 * time.Second)
 			synctest.Wait()
 			wg.Wait()
+			synctest.Wait()
 			for _, sw := range sws {
 				sw.Close() // idempotent
 			}
